@@ -102,3 +102,60 @@ class Sim(object):
             "executed": sorted((k[0], k[2], k[4]) for k in self.executed),
             "published": sorted(repr(sorted(c.items())) for c in st["contexts"][1:]),
         }
+
+
+class ChoiceSim(Sim):
+    """Simulation in which the next action to report is chosen by a script (list of indices into the sorted
+    in-flight set); beyond the script the first one is taken.  Records the branching factor at each step so
+    that all completion orders of a scenario can be enumerated by replay-based depth-first search."""
+
+    def __init__(self, sess, oracle, script, max_events=60):
+        Sim.__init__(self, sess, oracle, 0, max_events=max_events)
+        self.script = list(script)
+        self.branching = []
+
+    def run(self):
+        s = self.s
+        s.boot()
+        idle = 0
+        while self.events < self.max_events:
+            self._poll()
+            if not s.inflight:
+                idle += 1
+                if idle >= 2 or s.status() in COMPLETED:
+                    break
+                continue
+            idle = 0
+            keys = sorted(s.inflight, key=repr)
+            self.branching.append(len(keys))
+            k = self.script[self.events] if self.events < len(self.script) else 0
+            key = keys[min(k, len(keys) - 1)]
+            stt, res = self.oracle.outcome(key, s.inflight[key])
+            s.report(key, stt, res)
+            self.executed.append((key[0], key[1], key[2], 0, stt))
+            self.events += 1
+        s.render()
+        return self
+
+
+def all_orders(make_session, oracle, cap=200, max_events=40):
+    """Finals of every completion order of a scenario (up to cap orders); returns (finals, exhaustive?)."""
+    finals = []
+    stack = [[]]
+    exhaustive = True
+    while stack:
+        if len(finals) >= cap:
+            exhaustive = False
+            break
+        script = stack.pop()
+        sm = ChoiceSim(make_session(), oracle, script, max_events=max_events)
+        try:
+            sm.run()
+            finals.append((list(script), sm.final(), [op for op, _ in sm.s.trace]))
+            # siblings: at every step at or beyond the scripted prefix, the alternatives not taken
+            for pos in range(len(script), len(sm.branching)):
+                for alt in range(1, sm.branching[pos]):
+                    stack.append(script + [0] * (pos - len(script)) + [alt])
+        finally:
+            sm.s.close()
+    return finals, exhaustive
